@@ -8,7 +8,7 @@ from ..engine import Check
 from ..loader import AnalysisError
 from ..program import NotConst
 from ..recon import _own_nodes
-from ..rulelib import self_stores, conds_sym, func_eval, func_outcomes
+from ..rulelib import reach_table, self_stores, conds_sym, func_eval, func_outcomes
 
 LEVEL = "other"
 TECHNIQUE = ("static analysis: constant tables against digest sizes, def-use provenance of the MAC comparison operands and "
@@ -16,7 +16,8 @@ TECHNIQUE = ("static analysis: constant tables against digest sizes, def-use pro
 EXPLANATION = (
     "Decides structural necessary conditions of authenticated unlocking: the cipher / KDF / MAC tables (key sizes 16/24/32, hash "
     "names, MAC lengths not exceeding the digest size); the ciphertext is split as IV = first 16 bytes, MAC = last n bytes, body "
-    "in between with n the table's length for the named MAC; the computed HMAC is over the decrypted (unpadded) data with the "
+    "in between with n the table's length for the named MAC; PKCS#7 padding is removed iff its last byte n is in 1..16 and the last n "
+    "bytes all equal n (the MAC does not cover the padding); the computed HMAC is over the decrypted (unpadded) data with the "
     "same key and is truncated to the declared MAC length before it is compared with the stored MAC (a declared length shorter "
     "than the digest must reach the computed side); every return of _decrypt_hmac lies behind that comparison, whose failing "
     "side raises; PBKDF2 receives hash <- table[pass2key], password <- passphrase, salt, rounds, dklen <- table[cipher]; AES-CBC "
@@ -118,13 +119,9 @@ def run(chk: Check):
         same = all(r[3] == msg for r in rets)
         chk.decide(same, "K-PROV", "verified-data-is-returned-data", o[1], "the data that was authenticated is exactly the data returned")
     # padding removal
-    strips = [n for n in _own_nodes(ctx.func) if isinstance(n, ast.If)]
-    pk = False
-    for n in strips:
-        t = R.expr(ctx, n.test, ctx.cfg.node_of[n])
-        if t[0] == "cmp" and t[1] == "<=" and t[3] == S.C(16):
-            pk = True
-    chk.decide(pk, "K-FORMULA", "pkcs7-strip", ctx.func, "PKCS#7 padding (last byte <= 16) is removed before the MAC is computed")
+    # The MAC covers the plaintext WITHOUT its padding, so the padding itself is unauthenticated: only well-formed PKCS#7
+    # padding (n bytes of value n, 1 <= n <= 16) may be removed, otherwise altered padding bytes are accepted.
+    pkcs7(chk, ctx, dcalls)
     # ---- _create_cipher ----------------------------------------------------------------------------------------
     cctx = chk.func(REL, "_create_cipher")
     couts = func_outcomes(chk, cctx)
@@ -245,3 +242,47 @@ def _subst(t, old, new):
     if isinstance(t, tuple):
         return tuple(_subst(x, old, new) for x in t)
     return t
+
+
+def pkcs7(chk: Check, ctx, dcalls):
+    R = chk.R
+    decs = find(dcalls[0][2][1], lambda x: x[0] == "call" and x[1] == ".decrypt") if dcalls else []
+    if not decs:
+        chk.undecided("K-FORMULA", "pkcs7-strip", ctx.func, "no decrypt() result reaches the MAC computation")
+        return
+    dec = decs[0]
+    pad = ("sub", dec, S.C(-1))
+    stripped = ("sub", dec, ("slice", S.C(None), ("neg", pad)))
+    rep = S.op("mul", S.call("bytes", [("list", (pad,))]), pad)
+    site = None
+    for st in sorted((x for x in _own_nodes(ctx.func) if isinstance(x, ast.Assign)), key=lambda x: x.lineno):
+        if R.expr(ctx, st.value, ctx.cfg.node_of[st]) == stripped:
+            site = st
+    if site is None:
+        chk.violated("K-FORMULA", "pkcs7-strip", ctx.func, "no removal `decrypted[:-decrypted[-1]]` of the padding found")
+        return
+    st = n = site
+    conds = conds_sym(chk, ctx, st)
+    tail = ("sub", dec, ("slice", ("neg", pad), S.C(None)))
+    ws = [x for cc, _p in conds for x in S.walk(cc) if isinstance(x, tuple) and x and (
+        (x[0] == "call" and x[1] == ".endswith" and len(x[2]) == 2 and x[2][0] == dec and x[2][1] == rep) or
+        (x[0] == "cmp" and x[1] == "==" and {x[2], x[3]} == {tail, rep}))]
+    rel_conds = [(cc, p_) for cc, p_ in conds if S.contains(cc, lambda y: y == pad)]
+    c = rel_conds[0][0] if rel_conds else S.unk("unconditional")
+    if not ws:
+        chk.violated("K-FORMULA", "pkcs7-strip", n,
+                     "the padding is removed after looking at its last byte only: the MAC does not cover the padding, so an altered "
+                     "ciphertext / IV byte that changes another padding byte is accepted (well-formedness `tail == bytes([n]) * n` not tested)",
+                     found=S.show(c)[:200])
+        return
+    combos = [{"pad": p_, "w": w_} for p_ in (0, 1, 7, 16, 17, 255) for w_ in (True, False)]
+    tab = reach_table(rel_conds, {"pad": pad, "w": ws[0]}, combos)
+    want = [1 <= cb["pad"] <= 16 and cb["w"] for cb in combos]
+    from .C12 import _uncontrolled_leaves
+
+    extra = [x for cc, _p in rel_conds for x in _uncontrolled_leaves(cc, {"pad": pad, "w": ws[0]}) if x != dec and not S.contains(dec, lambda y: y == x)]
+    ok = tab == want and not extra
+    diff = [f"n={cb['pad']} well-formed={cb['w']}: strips={g}, specified {w}" for cb, g, w in zip(combos, tab, want) if g != w]
+    chk.decide(ok, "K-FORMULA", "pkcs7-strip", n,
+               "padding is removed iff its last byte n is in 1..16 and the last n bytes all equal n (tested over n in {0,1,7,16,17,255} x well-formed)"
+               if ok else ("; ".join(diff[:3]) or f"additional condition on `{S.show(extra[0])[:60]}`"), found=S.show(c)[:200])
